@@ -71,8 +71,14 @@ def wire_pipeline(tier, replay=None):
     vlib.run_bin_resilient(binp, ["replay"], recs, res, "c01.died", env={"WIRE_ALLMODES_EVERY": "1" if tier == "thorough" else "3"})
     return stats, recs, res, sum(1 for _ in open(recs))
 
-def wire_check(prop_id, tier, replay, prefixes, level_text):
+def wire_check(prop_id, tier, replay, prefixes, level_text, extra=None):
     v = Verdict(prop_id, tier)
+    if replay and "mode" in json.load(open(replay)).get("record", {}):
+        # a behaviour of the Evo model (versioned definitions)
+        cov = {"states": 0, "transitions": 0, "traces_validated_against_impl": 0, "evaluations": 0, "distinct_nontrivial": 0,
+               "rule": "replay of one recorded behaviour", "exhaustive": False, "explanation": level_text}
+        extra(v, cov, tier, replay)
+        return v.finish("model_checking", cov, WIRE_ASSUME)
     stats, recs, res, n = wire_pipeline(tier, replay)
     records = open(recs).read().splitlines()
     nontrivial = set()
@@ -101,6 +107,8 @@ def wire_check(prop_id, tier, replay, prefixes, level_text):
            "rule": "one behaviour per (type descriptor, boundary value) of the catalogue; non-trivial = encodes to at least one byte; distinct by (descriptor, value)",
            "type_expressions": len(types), "samples": samples, "exhaustive": not replay,
            "explanation": level_text}
+    if extra and not replay:
+        extra(v, cov, tier, None)
     return v.finish("model_checking", cov, WIRE_ASSUME)
 
 @prop("C01")
@@ -110,12 +118,50 @@ def c01(p, tier, replay):
         "RoundTrip/ConsumesExactly on the model; every behaviour is replayed on the real code through bare, plain, "
         "schema-less, bzip2 and encrypted containers and the loaded value / consumed length compared")
 
+def c02_versioned(v, cov, tier, replay):
+    """C02 quantifies over every data version a type declares: the same-version behaviours of the Evo model
+    (program i writing at version i) through bare, plain, schema-less and bzip2 containers"""
+    built, binp = family_build(tier, ["evo"])
+    recs, stats = built["evo"]
+    sel = os.path.join(WORK, "evo_%s_c02.sel" % tier)
+    with open(sel, "w") as o:
+        if replay:
+            o.write(json.dumps(json.load(open(replay))["record"]) + "\n")
+        else:
+            for line in open(recs):
+                if '"mode":"up"' in line:
+                    r = json.loads(line)
+                    if r["i"] == r["j"]:
+                        o.write(line)
+    res = sel + ".res"
+    vlib.run_bin_resilient(binp, ["evo"], sel, res, "c02.died")
+    records = open(sel).read().splitlines()
+    n = 0
+    for line in open(res):
+        r = json.loads(line)
+        rec = json.loads(records[r["i"]])
+        n += 1
+        for f in r["fails"]:
+            if f["check"].startswith("tool."):
+                raise ToolError("harness: %s %s" % (f["check"], f["detail"][:200]))
+            if f["check"].startswith("c02."):
+                v.report(f["check"], {"t": rec["d"], "i": rec["i"], "j": rec["j"]},
+                         "%s written at its version %d :: %s" % (vlib.show(rec["ts"][0]), rec["i"], f["detail"]), rec)
+    cov["versioned_definitions_evaluated"] = n
+    cov["evaluations"] = cov.get("evaluations", 0) + n
+    cov["traces_validated_against_impl"] = cov.get("traces_validated_against_impl", 0) + n
+    if stats:
+        cov["states"] = cov.get("states", 0) + stats["distinct"]
+        cov["transitions"] = cov.get("transitions", 0) + stats["generated"]
+
 @prop("C02")
 def c02(p, tier, replay):
     return wire_check(p, tier, replay, ["c02."],
         "TLC computes the documented encoding (Enc) and the machine output for every (type, value); the real "
-        "bare_serialize / save / save_noschema bytes must equal them exactly, the header must be the documented one, "
-        "and the real reader must load the specification's bytes")
+        "bare_serialize / save / save_noschema bytes must equal them exactly, the header must be the documented one, the "
+        "decompressed body of the bzip2 container must end with them, and the real reader must load the specification's bytes; "
+        "the same for every versioned definition of the Evo model written at each of its own data versions",
+        extra=c02_versioned)
 
 EVO_ASSUME = [
     "histories: final definitions of spec/Evo.tla (Histories) with versions 0..2; each program version is DefAt(D, i), generated as its own Rust type",
